@@ -596,6 +596,7 @@ func TestC13(t *testing.T) {
 		"or an unencodable item (raw id outside the dialect to all / to one, id > 255 message or frame on a v1 node, raw frame of unknown id) is inserted at every position of a history: the channel is " +
 		"either reported closed or keeps emitting (at least attempting) every later valid write. distinct = (fault class, position, channels, victim)")
 	rep.RuleAdd("Also: an overflow whose backlog is drained by failing writes before the link works again; a stalled channel with a full queue that receives first heartbeats of new ArduPilot senders and more frames (events go on); real TCP peers that stop and resume reading. An outage (every write failing for four write timeouts while the application keeps writing) after which the link works again.")
+	rep.RuleAdd("Rounds 12-15: overflows drained by failing writes, stalled channels that keep receiving, outages (also with a short idle timeout), close events pending while writes go on, UDP peers that flap, a slow-but-moving link in lock-step with a fast one, TCP closures with unsent output under a 3 s write timeout.")
 	rep.Assume("flow control counts only healthy channels; quiescence by the no-progress criterion (1.2-1.5 s, no timers configured in these scenarios)")
 	seed := shardSeed()
 	shard, nsh := shardInfo()
